@@ -57,7 +57,17 @@ def rule_CL1(ctx, prog, label, rule='CL1'):
     # ---- (a) bit moves: pair read -> xor through the temporary
     reads = {}
     flat = [n for n in body.walk()]
+    class _Asg(object):
+        pass
     for n in flat:
+        if n.kind == 'VarDecl' and n.kids and n.init and strip(n.kids[-1], casts=True).kind == 'CallExpr' and callee_name(strip(n.kids[-1], casts=True)) == 'mzd_read_bits':
+            # `word tmp = mzd_read_bits(..)`: same as an assignment to tmp
+            fake = _Asg()
+            fake.kind, fake.op, fake.line, fake.col, fake.loc = 'BinaryOperator', '=', n.line, n.col, n.loc
+            ref = _Asg()
+            ref.kind, ref.refid, ref.kids, ref.cast = 'DeclRefExpr', n.id, [], None
+            fake.kids = [ref, n.kids[-1]]
+            n = fake
         if n.kind == 'BinaryOperator' and n.op == '=' and strip(n.kids[0]).kind == 'DeclRefExpr':
             r = strip(n.kids[1], casts=True)
             if r.kind == 'CallExpr' and callee_name(r) == 'mzd_read_bits':
@@ -111,13 +121,14 @@ def rule_CL1(ctx, prog, label, rule='CL1'):
                     continue
                 bvar = srcs[0]
                 # latest assignment  block = S / 64  before the loop (source order)
-                asg = [a for a in body.walk() if a.kind == 'BinaryOperator' and a.op == '=' and strip(a.kids[0]).kind == 'DeclRefExpr' and strip(a.kids[0]).refid == bvar.refid
+                asg = [a for a in body.walk() if ((a.kind == 'BinaryOperator' and a.op == '=' and strip(a.kids[0]).kind == 'DeclRefExpr' and strip(a.kids[0]).refid == bvar.refid) or
+                                                  (a.kind == 'VarDecl' and a.id == bvar.refid and a.kids and a.init))
                        and (a.line, a.col or 0) < (lp.line, lp.col or 0)]
                 wmoves += 1
                 if not asg:
                     problems.append((n, 'the source word index `%s` of the word move has no defining assignment in the row loop' % bvar.ref))
                     continue
-                sx = strip(asg[-1].kids[1], casts=True)
+                sx = strip(asg[-1].kids[1] if asg[-1].kind == 'BinaryOperator' else asg[-1].kids[-1], casts=True)
                 for _ in range(3):
                     if sx.kind == 'DeclRefExpr' and sx.refkind == 'VarDecl' and fs.single_def(sx.refid) is not None:
                         sx = strip(fs.single_def(sx.refid), casts=True)
